@@ -509,6 +509,12 @@ class StartStageHandler(
         if stage.join_type == JoinType.N_OF_M:
             stage.context["_join_fired"] = True
 
+        # What the stage looked like when it was claimed: needed below to tell
+        # a non-claiming writer's change from our own when the plan commit
+        # loses the optimistic lock.
+        had_tasks_before_plan = len(stage.tasks) > 0
+        context_at_claim = dict(stage.context)
+
         # Now we have exclusive ownership - safe to do expensive planning
         try:
             self._plan_stage(stage)
@@ -526,7 +532,7 @@ class StartStageHandler(
         messages_to_push = self._collect_start_messages(stage, message)
 
         # Atomic: store planned stage + push all start messages together
-        try:
+        def persist_plan() -> None:
             with self.repository.transaction(self.queue) as txn:
                 txn.store_stage(stage)
 
@@ -550,13 +556,41 @@ class StartStageHandler(
                         stage,
                         source_handler="StartStageHandler",
                     )
-        except ConcurrencyError:
-            # This shouldn't happen since we already claimed the stage,
-            # but handle it gracefully just in case.
-            logger.warning(
-                "Unexpected ConcurrencyError after claiming stage %s",
-                stage.name,
-            )
+
+        # We hold the claim, but writers that do NOT claim the stage still
+        # bump its row version: join-tracking bookkeeping of another upstream's
+        # CompleteStage (DISCRIMINATOR / N_OF_M), a persistent signal being
+        # buffered. Giving up on that ConcurrencyError left the stage RUNNING
+        # with no task ever started and nobody re-sending StartStage. Adopt
+        # the other writer's change and persist the plan again - unless the
+        # stage moved on, or another worker (a zombie re-plan) planned it.
+        for _attempt in range(4):
+            try:
+                persist_plan()
+                break
+            except ConcurrencyError:
+                fresh = self.repository.retrieve_stage(stage.id)
+                if fresh is None or fresh.status != WorkflowStatus.RUNNING:
+                    logger.warning(
+                        "Stage %s changed to %s while it was being planned, dropping the plan",
+                        stage.name,
+                        fresh.status if fresh is not None else "missing",
+                    )
+                    return
+                if not had_tasks_before_plan and fresh.tasks:
+                    # Builder-built tasks already exist: someone else's plan won.
+                    logger.debug("Stage %s was planned by another worker, dropping this plan", stage.name)
+                    return
+                for key, value in fresh.context.items():
+                    if key not in context_at_claim or context_at_claim[key] != value:
+                        stage.context[key] = value
+                stage.version = fresh.version
+                fresh_task_versions = {t.id: t.version for t in fresh.tasks}
+                for task in stage.tasks:
+                    if task.id in fresh_task_versions:
+                        task.version = fresh_task_versions[task.id]
+        else:
+            logger.warning("Giving up persisting the plan of stage %s after repeated conflicts", stage.name)
             return
 
         logger.info("Started stage %s (%s)", stage.name, stage.id)
